@@ -3,8 +3,9 @@ import XpmVerif.Generated.SchedFlags
 /-! C08 "Jobs running under a token never hold more than its capacity" — theorems over ALL reachable states of
     the scheduler model M2 (`Model/Sched.lean`): `Reachable fl totals s` = `s` is the result of ANY list of events
     (submissions of any jobs with any dependencies, callbacks, helper-thread completions in any order, `wait`)
-    applied to `St.init totals`, for ANY token table `totals` and ANY repair flags `fl` (none of the three
-    scheduler repairs is needed for this property; no well-formedness of the submitted dependencies either).
+    applied to `St.init totals`, for ANY token table `totals` and ANY repair flags `fl` (none of the scheduler
+    repairs is needed for this property — only `no_hold_across_abort` assumes `fl.abortReleases`; no
+    well-formedness of the submitted dependencies either).
     Definitions (`Proofs/SchedCap.lean`): `tokCount o t` = the count of origin `o` if it is token `t`, else 0;
     `heldTok jb t` = Σ of the counts of the token-`t` dependencies whose index is in `jb.held` (with
     multiplicity); `request jb t` = Σ of the counts of ALL token-`t` dependencies of `jb`;
@@ -77,6 +78,19 @@ theorem held_only_while_starting_or_running (fl : Flags) (totals : List Nat) (s 
     · have hp : (s.jobs j).pc = .none := by apply hi.2.1; omega
       rw [hp] at h1; simp [PC.holds] at h1
   · revert h1; cases (s.jobs j).pc <;> simp [PC.holds]
+
+/-- `no_hold_across_abort` (what the repair `abortReleases` — `locks.release()` in the `except LockError` handler of
+    `aio_start` before `dependency.check()` — buys): with that repair, in every reachable state a job that holds
+    anything has been launched (`pc ∈ {lockExitRun, codeWait}`); a job whose start was aborted never keeps a
+    token between two steps.  (Without the repair only `held_only_while_starting_or_running` holds.) -/
+theorem no_hold_across_abort (fl : Flags) (totals : List Nat) (s : St) (h : Reachable fl totals s)
+    (hfl : fl.abortReleases = true) (j : Nat) :
+    (s.jobs j).held ≠ [] → (s.jobs j).pc = .lockExitRun ∨ (s.jobs j).pc = .codeWait := by
+  obtain ⟨N, hi⟩ := h.invA
+  rw [hfl] at hi
+  intro hh
+  have := hi.hold_run j hh
+  revert this; cases (s.jobs j).pc <;> simp [PC.run]
 
 /-- `released_on_every_exit` (for C09): the step that resumes a job after an aborted start (`lockExitAbort`)
     or after its exit code arrived (`codeWait`: success or failure) leaves it holding nothing, gives back to every
